@@ -213,6 +213,8 @@ class Interp:
                 self.fork_log.append(desc)
                 raise Fork()
             self.fork_log.append(desc + (self.choices[k],))
+            if self.choices[k] and getattr(v, 'tight', False):
+                raise AnalysisError(f'{u.why}: the branch taken when the test succeeds relies on an equality up to rounding that the analysis does not interpret ({self.where()})')
             if self.domain is not None and hasattr(self.domain, 'on_branch'):
                 self.domain.on_branch(self, node, v, self.choices[k])
             return self.choices[k]
@@ -881,7 +883,9 @@ class Interp:
                 try:
                     if self.domain is not None and hasattr(self.domain, 'on_native'):
                         self.domain.on_native(None, (left, right), {})
-                    r = CMPOPS[type(op)](left, right)
+                    r = self.domain.compare(op, left, right) if self.domain is not None and hasattr(self.domain, 'compare') else None
+                    if r is None:
+                        r = CMPOPS[type(op)](left, right)
                 except UnknownTruth as u:
                     r = UnknownBool(u.why)
                 except (Fork, AnalysisError, Raised):
